@@ -448,8 +448,24 @@ func (r *c25Run) hint() string {
 		}
 	}
 	stuckOnDeadConn := dead && r.cl != nil && r.cl.State() == opcua.Connected
+	// "no connection monitor at all" is the catalogued finding only if an earlier Connect on
+	// this Client got as far as Connected (that is where the one and only monitor is started)
+	// and was closed again by a later step of that Connect failing
+	seq := r.snapshot()
+	lastConnecting := -1
+	for i, st := range seq {
+		if st == opcua.Connecting {
+			lastConnecting = i
+		}
+	}
+	earlierConnected := false
+	for i, st := range seq {
+		if st == opcua.Connected && i < lastConnecting {
+			earlierConnected = true
+		}
+	}
 	switch {
-	case r.ReuseClient && r.s.ProbeCount("connect-retried-on-same-client") > 0 && (stuckOnDeadConn || !monitorRunning):
+	case r.ReuseClient && r.s.ProbeCount("connect-retried-on-same-client") > 0 && (stuckOnDeadConn || (!monitorRunning && earlierConnected)):
 		return "connect-retried-on-same-client"
 	case r.s.Label("client.monitor.drainError") > 0 && stuckOnDeadConn:
 		return "disconnect-error-drained-after-reconnect"
